@@ -638,6 +638,9 @@ func (h *harness) exec(n *NodeSpec, arg any, anyStyle bool) (val any, errRes err
 		e := h.reg.mkErr(o.Fail, tok+"X")
 		end.S1 = "err:" + tok + "X"
 		simrt.EmitF(end, nil, func(*simrt.Event) { h.failSeen = true })
+		if o.Both && o.Pay == "er" && !anyStyle {
+			return nil, e, e // the failure reported both ways
+		}
 		if o.Both {
 			return h.reg.mkPay("str", tok+"-ignored"), nil, e // a value alongside the error
 		}
@@ -871,6 +874,9 @@ func (h *harness) execFuncR(n *NodeSpec) func(context.Context, flyt.Result) (fly
 		h.noteCtx(n, ctx)
 		v, er, err := h.exec(n, p, false)
 		if err != nil {
+			if er != nil {
+				return flyt.NewErrorResult(er), err
+			}
 			if v != nil {
 				return flyt.NewResult(v), err
 			}
@@ -887,7 +893,7 @@ func (h *harness) execFuncA(n *NodeSpec) func(context.Context, any) (any, error)
 	return func(ctx context.Context, p any) (any, error) {
 		h.noteCtx(n, ctx)
 		v, er, err := h.exec(n, p, true)
-		if er != nil {
+		if er != nil && err == nil {
 			panic("errres outcome scripted for an Any-style exec function")
 		}
 		return v, err
